@@ -197,6 +197,38 @@ pub fn run(ctx: &Ctx) {
     let mut x = pf.clone();
     x[off] ^= 1;
     add("password decrypt", "corrupted chunk 1 of 3 (later chunk)", &pd_ok, env_pw("ppw"), Stdin::Null, with_in(&x), Some(pt3[..65536].to_vec()));
+    // ---------------- later-chunk failures in files made of SHORT chunks (as written from a pipe) ----------------
+    {
+        let shapes: Vec<(&str, Vec<usize>)> = vec![
+            ("ten chunks of 1000 bytes", vec![1000; 10]),
+            ("chunks of 65536, 100, 65536, 5", vec![65536, 100, 65536, 5]),
+            ("forty chunks of 7 bytes", vec![7; 40]),
+            ("chunks of 65535, 65535, 2", vec![65535, 65535, 2]),
+        ];
+        for (shape, ch) in shapes {
+            let total: usize = ch.iter().sum();
+            let ptx = rng.bytes(total);
+            let skf = refspec::encode_key_file(&alice.sk, &alice.pk, &bob.pk, &rng.arr32(), &rng.arr32(), &ptx, &ch).unwrap();
+            let spf = refspec::encode_pass_file(b"ppw", &rng.arr32(), &ptx, &ch);
+            // record k starts at header + sum(32 + len_i, i < k)
+            let rec_start = |hdr: usize, k: usize| hdr + ch[..k].iter().map(|l| l + 32).sum::<usize>();
+            for bad in [1usize, ch.len() / 2, ch.len() - 1] {
+                if bad == 0 {
+                    continue;
+                }
+                let prefix: Vec<u8> = ptx[..ch[..bad].iter().sum::<usize>()].to_vec();
+                let mut x = skf.clone();
+                let at = rec_start(132, bad) + 16 + ch[bad].min(3);
+                x[at] ^= 1;
+                add("decrypt", &format!("corrupted chunk {} of {} (later chunk, {})", bad, ch.len(), shape), &d_ok, env_pw("bpw"), Stdin::Null, with_in(&x), Some(prefix.clone()));
+                add("decrypt", &format!("truncated in chunk {} of {} (later chunk, {})", bad, ch.len(), shape), &d_ok, env_pw("bpw"), Stdin::Null, with_in(&skf[..rec_start(132, bad) + 9]), Some(prefix.clone()));
+                let mut x = spf.clone();
+                let at = rec_start(36, bad) + 16 + ch[bad].min(3);
+                x[at] ^= 1;
+                add("password decrypt", &format!("corrupted chunk {} of {} (later chunk, {})", bad, ch.len(), shape), &pd_ok, env_pw("ppw"), Stdin::Null, with_in(&x), Some(prefix.clone()));
+            }
+        }
+    }
     // ---------------- large inputs: a later chunk fails far into a file of many MiB ----------------
     for (bi, big_len) in ctx.tier.pick(vec![17usize << 20], vec![1usize << 20, 17 << 20, 33 << 20, 65 << 20]).into_iter().enumerate() {
         let big_pt = rng.bytes(big_len + 5);
